@@ -22,8 +22,10 @@ import (
 )
 
 type T1 struct {
-	F string `valid:"required|need-F,to=2~3" b:"to=1~9"`
-	G int    `valid:"to=1~3" b:"ge=1"`
+	F string `valid:"required|need-F,to=2~3" b:"to=1~9" check:"to=5|bad-to"`
+	G int    `valid:"to=1~3" b:"ge=1" check:"in=1/2"`
+	// rule tags on unexported fields are never evaluated and never reported, on the first call as on any later one
+	hidden string `valid:"required|need-hidden,to=9~9" b:"required" check:"required"`
 }
 
 type T2 struct {
@@ -288,6 +290,8 @@ func callMenu() []callT {
 	}
 }
 
+var sharedRM2 = valid.RM{"k": "", "j": ""}
+
 // fsPath: one path name that is a file during some calls, a directory during others and absent in between: what a
 // file / dir rule answers is what the file system holds at the time of the call.
 var fsPath = filepath.Join(func() string {
@@ -337,6 +341,39 @@ func extraMenu() []callT {
 				e := valid.GetOnlyExplainErr(a[0].(string))
 				return e, []string{e}
 			}, nil},
+		// a struct call under another tag name that ends before validation starts (typed nil), then rule-writing errors
+		// reported by the other entry points: their wording does not depend on what was called before
+		{"StructForFn(typed nil, nil, tag check)", func() []interface{} { return []interface{}{(*T1)(nil)} },
+			func(a []interface{}) (string, []string) { return errText(valid.StructForFn(a[0], nil, "check")), nil }, nil},
+		{"ValidateStruct(nil, tag check)", func() []interface{} { return []interface{}{nil} },
+			func(a []interface{}) (string, []string) { return errText(valid.ValidateStruct(a[0], "check")), nil }, nil},
+		{"Var(malformed to)", func() []interface{} { return []interface{}{"abc", []string{"to=5"}} },
+			func(a []interface{}) (string, []string) { return errText(valid.Var(a[0], a[1].([]string)...)), nil }, nil},
+		{"Map(malformed in, either with one member)", func() []interface{} {
+			return []interface{}{map[string]string{"k": "v", "j": ""}, valid.RM{"k": "in=a/b", "j": "either=1"}}
+		}, func(a []interface{}) (string, []string) { return errText(valid.Map(a[0], a[1].(valid.RM))), nil }, nil},
+		{"Struct(T1, tag check: malformed rules)", func() []interface{} { return []interface{}{&T1{F: "abc", G: 3}} },
+			func(a []interface{}) (string, []string) { return errText(valid.ValidateStruct(a[0], "check")), nil }, nil},
+		// one rule-map object (same address, same number of keys) whose required key differs from call to call, with
+		// that key missing from the input
+		{"Map(shared rm2: k required and missing)", func() []interface{} {
+			sharedRM2["k"], sharedRM2["j"] = "required|need-k", "to=1~3|j-size"
+			return []interface{}{map[string]string{"j": "ab"}, sharedRM2}
+		}, func(a []interface{}) (string, []string) { return errText(valid.Map(a[0], a[1].(valid.RM))), nil },
+			func() (string, bool) { return `"map[k]" input "", explain: need-k`, true }},
+		{"Map(shared rm2: j required and missing)", func() []interface{} {
+			sharedRM2["k"], sharedRM2["j"] = "to=1~3|k-size", "required|need-j"
+			return []interface{}{map[string]string{"k": "ab"}, sharedRM2}
+		}, func(a []interface{}) (string, []string) { return errText(valid.Map(a[0], a[1].(valid.RM))), nil },
+			func() (string, bool) { return `"map[j]" input "", explain: need-j`, true }},
+		{"Url(shared rm2: k required and missing)", func() []interface{} {
+			sharedRM2["k"], sharedRM2["j"] = "required|need-k", "to=1~3|j-size"
+			return []interface{}{"http://h/p?j=ab", sharedRM2}
+		}, func(a []interface{}) (string, []string) { return errText(valid.Url(a[0], a[1].(valid.RM))), nil }, nil},
+		{"Url(shared rm2: j required and missing)", func() []interface{} {
+			sharedRM2["k"], sharedRM2["j"] = "to=1~3|k-size", "required|need-j"
+			return []interface{}{"http://h/p?k=ab", sharedRM2}
+		}, func(a []interface{}) (string, []string) { return errText(valid.Url(a[0], a[1].(valid.RM))), nil }, nil},
 		{"GetJoinValidErrStr+GetJoinFieldErr", func() []interface{} { return []interface{}{"Obj", "Field", "in"} },
 			func(a []interface{}) (string, []string) {
 				e1 := valid.GetJoinValidErrStr(a[0].(string), a[1].(string), a[2].(string), valid.ExplainEn, "one")
